@@ -249,7 +249,7 @@ impl Send {
                 stream.state.is_send_streaming() as i64,
                 stream.state.is_send_closed() as i64,
                 stream.state.is_closed() as i64,
-                stream.is_pending_open as i64,
+                (stream.is_pending_open as i64) | ((stream.is_pending_push as i64) << 1),
                 isize::from(stream.send_flow.window_size_raw()) as i64,
                 isize::from(stream.send_flow.available()) as i64,
                 stream.requested_send_capacity as i64,
@@ -352,7 +352,7 @@ impl Send {
                 stream.state.is_send_streaming() as i64,
                 stream.state.is_send_closed() as i64,
                 stream.state.is_closed() as i64,
-                stream.is_pending_open as i64,
+                (stream.is_pending_open as i64) | ((stream.is_pending_push as i64) << 1),
                 isize::from(stream.send_flow.window_size_raw()) as i64,
                 isize::from(stream.send_flow.available()) as i64,
                 stream.requested_send_capacity as i64,
@@ -465,7 +465,7 @@ impl Send {
                 stream.state.is_send_streaming() as i64,
                 stream.state.is_send_closed() as i64,
                 stream.state.is_closed() as i64,
-                stream.is_pending_open as i64,
+                (stream.is_pending_open as i64) | ((stream.is_pending_push as i64) << 1),
                 isize::from(stream.send_flow.window_size_raw()) as i64,
                 isize::from(stream.send_flow.available()) as i64,
                 stream.requested_send_capacity as i64,
@@ -507,7 +507,7 @@ impl Send {
                 stream.state.is_send_streaming() as i64,
                 stream.state.is_send_closed() as i64,
                 stream.state.is_closed() as i64,
-                stream.is_pending_open as i64,
+                (stream.is_pending_open as i64) | ((stream.is_pending_push as i64) << 1),
                 isize::from(stream.send_flow.window_size_raw()) as i64,
                 isize::from(stream.send_flow.available()) as i64,
                 stream.requested_send_capacity as i64,
@@ -604,7 +604,7 @@ impl Send {
                 stream.state.is_send_streaming() as i64,
                 stream.state.is_send_closed() as i64,
                 stream.state.is_closed() as i64,
-                stream.is_pending_open as i64,
+                (stream.is_pending_open as i64) | ((stream.is_pending_push as i64) << 1),
                 isize::from(stream.send_flow.window_size_raw()) as i64,
                 isize::from(stream.send_flow.available()) as i64,
                 stream.requested_send_capacity as i64,
@@ -695,7 +695,8 @@ impl Send {
                                 stream.state.is_send_streaming() as i64,
                                 stream.state.is_send_closed() as i64,
                                 stream.state.is_closed() as i64,
-                                stream.is_pending_open as i64,
+                                (stream.is_pending_open as i64)
+                                    | ((stream.is_pending_push as i64) << 1),
                                 isize::from(stream.send_flow.window_size_raw()) as i64,
                                 isize::from(stream.send_flow.available()) as i64,
                                 stream.requested_send_capacity as i64,
